@@ -8,7 +8,7 @@ from . import C07
 
 META = {
     "level": "other",
-    "explanation": "Effect analysis: (R1) no method of any Construct subclass or expression class, other than the construction-time methods __init__/__setstate__/__copy__, writes an attribute of self, mutates a container reached from self, or calls setattr/delattr on self; (R2) no function in the package declares `global`, rebinds a module-level name, or mutates a module-level or class-level container (frozen: the three documented print-setting functions, which only influence __str__); (R3) each public call builds a fresh context (shared with C07.R3); (R4) parse/parse_file/build/build_file delegate to parse_stream/build_stream with the caller's keyword arguments, a fresh in-memory stream or a file opened in the right mode, and return the delegate's result. R1+R2 establish the absence of shared mutable state, which is the only way call history or thread schedules could influence a result. (R5) start-offset independence: no read length, written data, write length or relative seek of any _parse/_build depends on the absolute stream position once tells are valued by the position algebra (only position differences do). (R6) substreams translate positions by the outer offset of the region's first byte in tell and absolute seeks only (shared with C08.R3).",
+    "explanation": "Effect analysis: (R1) no method of any Construct subclass or expression class, other than the construction-time methods __init__/__setstate__/__copy__, writes an attribute of self, mutates a container reached from self, or calls setattr/delattr on self; (R2) no function in the package declares `global`, rebinds a module-level name, or mutates a module-level or class-level container (frozen: the three documented print-setting functions, which only influence __str__); (R3) each public call builds a fresh context (shared with C07.R3); (R4) parse/parse_file/build/build_file delegate to parse_stream/build_stream with the caller's keyword arguments, a fresh in-memory stream or a file opened in the right mode, and return the delegate's result. R1+R2 establish the absence of shared mutable state, which is the only way call history or thread schedules could influence a result. (R5) start-offset independence: no read length, written data, write length or relative seek of any _parse/_build depends on the absolute stream position once tells are valued by the position algebra (only position differences do). (R6) substreams translate positions by the outer offset of the region's first byte in tell and absolute seeks only (shared with C08.R3). (R7) no attribute of a construct is bound (in __init__ or anywhere else) to a stateful helper object -- stream, file, generator, itertools iterator -- whose state would carry over between calls.",
     "undecided": "Thread schedules as such are not explored; stream objects supplied by the caller are the caller's; Rebuffered (documented experimental) and debug.py are frozen exceptions.",
     "trusted_base": ["python ast (3.12)", "sa.summ summariser (write events SELFWRITE/STORE/MUT/ATTRSET/GLOBALWRITE)"],
     "assumptions": ["aliasing through local names is followed by substitution; aliasing through containers returned by opaque calls is not"],
@@ -18,6 +18,9 @@ CONSTRUCTION = {"__init__", "__setstate__", "__copy__", "__new__"}
 R1_FROZEN = {
     ("Rebuffered._parse", "stream2"): "documented experimental class: re-targets its private RebufferedBytesIO at the current stream",
     ("Rebuffered._build", "stream2"): "documented experimental class: re-targets its private RebufferedBytesIO at the current stream",
+}
+R7_FROZEN = {
+    ("Rebuffered", "stream2"): "documented experimental class: the private RebufferedBytesIO *is* its cross-call state (same exemption as R1)",
 }
 R2_FROZEN = {"setGlobalPrintFullStrings", "setGlobalPrintFalseFlags", "setGlobalPrintPrivateEntries"}
 
@@ -179,6 +182,52 @@ def run(ctx):
         if o.rule == "C08.R3":
             ctx.ob("C17.R6", o.where, o.ok, o.what, key=o.key, loc=o.loc, detail=o.detail)
     ctx.floor("C17.R6", 12)
+    # R7: no construct holds a stateful helper object between calls: an iterator, generator, stream or file created at construction time
+    # (or lazily) and then consumed / written by parse or build carries its state from one call into the next
+    def stateful(t):
+        if not isinstance(t, tuple) or not t:
+            return None
+        if t[0] == "ite":
+            return stateful(t[2]) or stateful(t[3])
+        if t[0] == "bool":
+            return next((r for r in map(stateful, t[2]) if r), None)
+        if t[0] == "newstream":
+            return "a stream object (%s)" % t[1]
+        if t[0] == "comp" and t[1] == "gen":
+            return "a generator"
+        if t[0] == "call":
+            f = t[1]
+            name = f[1] if f[0] == "free" else (f[2] if f[0] == "attr" else "")
+            base = str(name).split(".")[-1]
+            if base in ("cycle", "count", "repeat", "chain", "islice", "iter", "open", "BytesIO", "StringIO", "zip", "map", "filter", "enumerate", "reversed"):
+                return "a one-shot / stateful iterator or stream (%s)" % base
+        return None
+    n7 = 0
+    for ci in M.construct_classes():
+        if ci.relpath.endswith("debug.py"):
+            continue
+        for mname in sorted(ci.methods):
+            fi = M.method(ci.name, mname)
+            if fi is None or fi.cls is None or fi.cls.name != ci.name:
+                continue
+            try:
+                ps = paths_of(ctx, fi, ci.name)
+            except AnalysisError:
+                continue
+            seenattr = {}
+            for p in ps:
+                for e in p.events:
+                    if e.kind == "SELFWRITE" and e["base"] == SELF and not e.depth:
+                        why = stateful(e["value"])
+                        cur = seenattr.get(e["attr"])
+                        seenattr[e["attr"]] = cur or why
+            for attr, why in sorted(seenattr.items()):
+                n7 += 1
+                if why and (ci.name, attr) in R7_FROZEN:
+                    ctx.ob("C17.R7", fi, True, "%s.%s: %s" % (ci.name, attr, R7_FROZEN[(ci.name, attr)]), key="self.%s" % (attr,), detail=R7_FROZEN[(ci.name, attr)])
+                    continue
+                ctx.ob("C17.R7", fi, not why, "%s.%s keeps %s in self.%s: its state would carry over from one parse/build call to the next" % (ci.name, mname, why or "no stateful object", str(attr)), key="self.%s" % (attr,))
+    ctx.floor("C17.R7", 100)
 
     # positive control
     ctl = control_model(
